@@ -635,7 +635,16 @@ evaluate() const {
           return Result(r1.as_boolean());
 
         } else if (stype->_type == CPPSimpleType::T_int) {
-          return Result(r1.as_integer());
+          int value = r1.as_integer();
+          if (stype->_flags & CPPSimpleType::F_short) {
+            // Conversion to a 16-bit integer type is modulo 2^16.
+            if (stype->_flags & CPPSimpleType::F_unsigned) {
+              value = (int)(unsigned short)value;
+            } else {
+              value = (int)(short)value;
+            }
+          }
+          return Result(value);
 
         } else if (stype->_type == CPPSimpleType::T_float ||
                    stype->_type == CPPSimpleType::T_double) {
